@@ -100,8 +100,10 @@ LEVEL_TEXT = ('BufferAsyncCalls is modelled step for step as an executable macro
               'barrier / shutdown / settled on the implementation trace.  shutdown_monitor_complete / _sound (the shutdown part accepts '
               'every model trace; acceptance means: no DaemonEnded before the first Shutdown, exactly [DaemonEnded] in its step, '
               'nothing afterwards); walk_monitor_sound (model-free: at every observed WaitRet the barrier statement holds for the '
-              'script and the observations before it; settled scripts see every accepted wait() return).  Completeness of the walk '
-              'part is not proved.')
+              'script and the observations before it; settled scripts see every accepted wait() return); monitor_complete (the WHOLE '
+              'monitor, incl. the barrier check against the input tracker at every WaitRet, accepts the model trace of every event '
+              'list: no false alarm where implementation and model agree), with returned_wait_producers_closed and '
+              'settled_means_no_waiter behind it.')
 LEVEL_NOTE = ('trusted: Coq kernel + vm_compute; no axioms (Print Assumptions: closed under the global context); asyncio primitives are '
               'modelled and validated only by the correspondence runs; harness/buffer_drv.py, harness/vloop.py; Case_Buffer.v, Case_C07.v.  '
               'The model describes the repaired code (fix F3: the daemon re-raises its own cancellation); the unrepaired behaviour is '
